@@ -43,6 +43,12 @@ CHECKS = {
         text="DependencyTools().can_loop_be_parallelised is called on every loop of a generated dependence family (subscripts i, i+-c, c*i, i/c, MOD, index arrays, loop-invariant and reversed subscripts, structure members, two writes to one array, nests, scalars written conditionally/unconditionally, stepped and negative loops, variables named like the analysis' internal d_<var> symbols), each call under an alarm (termination clause). For every True verdict the loop is unrolled K times from a symbolic pre-state by the fsym interpreter with its memory-event trace on; z3 decides whether two distinct iterations can touch the same location with at least one write, for all inputs; scalars are exempt only if two further queries show that every iteration writes them unconditionally before any read. Witnesses are replayed by re-executing with the witness inputs and a set-based Bernstein check.",
         note="Bounds: K=3 (quick) / 4 (thorough) consecutive iterations of the analysed loop; programs = enumerated G-D family (about 350); inputs, index-array contents, bounds = solver. Only soundness of True verdicts is asserted. Trusted: fparser2, z3, fsym.",
         ref="5/C08"),
+    "C12": dict(
+        level="other", engine="fsym",
+        technique="SMT queries over the symbolically executed region's memory-event trace: satisfiability of 'this read sees the incoming value' (upward-exposed read) and 'this write happens' decides the required input/output sets, compared with the real get_in_out_parameters lists",
+        text="CallTreeUtils().get_in_out_parameters is called on every consecutive statement range of a generated region family (partial and conditional writes, write-then-read of different elements, calls to routines in the same file, sections, index arrays, EXIT/CYCLE, DO WHILE). The routine is executed symbolically with the event trace on; for every read event of the region z3 decides whether its guard can hold while no earlier write of the region covers the same element (then the variable must be a reported input), and for every write event whether its guard can hold (then it must be a reported output). A missing variable is confirmed against the ProvideVariable calls emitted by the real ExtractTrans for the same statements.",
+        note="Bounds: loops unrolled to K=3/4, extents <= 3/4, symbolic pre-state; routines called from the region are executed. Generic (non-PSyKAl) regions only: the non-local/LFRic kernel path of get_in_out_parameters is outside this check. Trusted: fparser2, z3, fsym.",
+        ref="5/C12"),
     "C13": dict(
         level="translation_validation", engine="fsym",
         technique="SMT translation validation with a host/device store model: z3 decides equality of all host arrays between the host run and a device run that performs exactly the emitted copyin/copyout/copy movements, for all inputs and all (arbitrary) initial device contents",
